@@ -20,7 +20,30 @@ WITNESSES = [
     ["generator", "PCG64", 1, 1],
     ["int", 7],
     ["userobj", "Plain", [["a", ["ndarray", "<i4", [2], "C", 3, False]]]],
+    ["dict", [[["int", 1], ["bytes", "78"]], [["str", "1"], ["bytes", "79"]]]],      # finding C12-F1: the first member is written but no node refers to it
 ]
+
+
+def defect_class(d):
+    for needle, cls in (("is not referred to", "orphan-member"), ("refers to missing member", "missing-member"), ("lacks", "node-lacks-key"),
+                        ("is not flat", "name-not-flat"), ("is not <id>", "name-shape"), ("duplicate member", "duplicate-names"), ("schema.json", "schema-member")):
+        if needle in d:
+            return cls
+    return "other"
+
+
+def cause_of(spec, d):
+    """the only known cause of an unreferenced member: two dict keys with the same JSON spelling (D08)"""
+    from props.c04 import DICT_TAGS, json_key_text, subspecs
+    if "is not referred to" not in d:
+        return None
+    for s in subspecs(spec):
+        if s[0] in DICT_TAGS:
+            items = s[1] if s[0] not in ("defaultdict", "mydefaultdict") else s[2]
+            texts = [json_key_text(k) for k, v in items if v[0] != "property"]
+            if len(set(texts)) != len(texts):
+                return "dict-colliding-keys"
+    return "unknown"
 
 
 def run_sinks(R, specs, configs):
@@ -62,8 +85,8 @@ def oracle_sinks(spec, rec):
             continue
         if v.get("dump") != "ok":
             continue
-        for d in v.get("wf") or []:
-            out.append(("ill-formed", key, d))
+        if v.get("wf") != (ref or {}).get("wf") and [defect_class(d) for d in v.get("wf") or []] != [defect_class(d) for d in (ref or {}).get("wf") or []]:
+            out.append(("ill-formed-differs", key, f"well-formedness defects {v.get('wf')} vs {ref_key}: {(ref or {}).get('wf')}"))
         if v.get("archive") != ref.get("archive"):
             out.append(("archive-differs", key, f"normalised schema/member names differ from {ref_key}"))
         elif v.get("contents") != ref.get("contents"):
@@ -104,7 +127,7 @@ def run(R, only=None):
             if rec.get("version") != snap.get("skops_version"):
                 R.violation({"kind": "ill-formed", "what": "version"}, f"schema _skops_version {rec.get('version')!r} != skops.__version__ {snap.get('skops_version')!r}", {"spec": spec})
             for d in rec.get("wf") or []:
-                R.violation({"kind": "ill-formed", "what": " ".join(d.split()[:3])}, d, {"spec": spec, "names": rec.get("names")})
+                R.violation({"kind": "ill-formed", "what": defect_class(d), "cause": cause_of(spec, d)}, d, {"spec": spec, "names": rec.get("names")})
     K.report_mismatches(R, "C12", specs, recs, bad)
     # ---- sink / compression independence, on the implementation directly
     m = 40 if R.tier == "quick" else 250
